@@ -417,7 +417,7 @@ class C12(Check):
     budget = {'quick': 45.0, 'thorough': 760.0}
     assumptions = [
         'model families: operations are executed one at a time (no interleaving inside an operation); virtual time',
-        'concurrent family: C02\'s interleaved scenarios; judged there: residue after everybody released (holder flags, '
+        'concurrent family: C02\'s interleaved scenarios (30 %: with one OSError injected underneath an acquire() - at the n-th open / flock / close made inside any thread\'s acquire()); judged there: no two threads inside the section at once, residue after everybody released (holder flags, '
         'descriptors, every object and a fresh one acquirable at once), nobody blocked for ever, time bounds of non-blocking '
         '(at once) and timed acquires (2 x timeout + poll interval, not counting long preemptions injected into the caller), '
         'no OSError out of a lock operation (no fault is injected in this family)',
@@ -464,10 +464,21 @@ class C12(Check):
             delays = [{'thread': f'W{rng.randrange(len(scen["threads"]))}',
                        'qual': rng.choice(['BaseFileLock.acquire', 'BaseFileLock.acquire', 'BaseFileLock.release', 'BaseFileLock._acquire']),
                        'nth': rng.randint(1, 25), 'd': rng.choice([0.05, 0.2, 0.5])}]
-        r = self.ch.run(scen, strat, probes=True, delays=delays)
+        faults = None
+        if rng.random() < 0.3:
+            # ... and one OSError injected underneath an acquire(): at the n-th open / flock / close made inside any
+            # thread's acquire() (an attempt that fails, or one that would have succeeded), while the others go on
+            faults = [(rng.choice(['open', 'lock', 'close', 'close']), rng.randrange(0, 6))]
+        r = self.ch.run(scen, strat, probes=True, delays=delays, faults=faults)
         res = CaseResult()
         st = res.stats
         res.sig = r.signature
+        fired = [e[1] for e in r.log if e[0] == 'faults_fired']
+        fired = fired[0] if fired else []
+        if fired:
+            st['concurrent_with_fault_inside_acquire'] += 1
+            st[f'concurrent_fault_{fired[0][0]}'] += 1
+        close_fault = any(f[0] == 'close' for f in fired)
         if r.verdict == 'watchdog' or not r.clean:
             res.dirty = True
         if r.verdict == 'watchdog':
@@ -509,12 +520,14 @@ class C12(Check):
             if e[0] == 'all_released':
                 if any(e[1]):
                     res.violate('C12:is_locked', 'an object still reports is_locked after every thread released', flags=e[1], **what)
-                if e[2] != 0:
+                if e[2] != 0 and not close_fault:      # (a close that was made to fail leaves its descriptor open by construction)
                     res.violate('C12:fd-census', 'descriptors still open after every thread released', open=e[2], **what)
             elif e[0] == 'probe' and e[2] is not True:
                 res.violate('C12:not-acquirable-after-release', 'after everything was released a thread cannot acquire the lock',
                             obj=e[1], got=repr(e[2]), **what)
-            elif e[0] == 'final_fds' and e[1] != 0:
+            elif e[0] == 'enter' and e[3] > 1:
+                res.violate('C12:two-holders', 'two threads were inside the protected section at once', who=e[1], **what)
+            elif e[0] == 'final_fds' and e[1] != 0 and not close_fault:
                 res.violate('C12:fd-census', 'descriptors left open at the end', open=e[1], **what)
         contended = any(e[0] == 'refused' for e in r.log)
         res.nontrivial = contended
@@ -719,7 +732,8 @@ class C12(Check):
                 'fault_fired_open': 100, 'fault_fired_lock': 100, 'fault_fired_unlock': 100,
                 'fault_fired_close': 100, 'seen_forced_at_depth': 50, 'seen_release_unheld': 100,
                 'seen_refused': 1000, 'seen_nested': 500, 'concurrent_contended': 2500 if q else 60000,
-                'lock_file_on_descriptor_0_1_2': 4, 'acquire_time_bounds_judged': 4000 if q else 100000, 'concurrent_long_delay_injected': 800 if q else 20000}
+                'lock_file_on_descriptor_0_1_2': 4, 'acquire_time_bounds_judged': 4000 if q else 100000, 'concurrent_long_delay_injected': 800 if q else 20000,
+                'concurrent_with_fault_inside_acquire': 400 if q else 10000}
 
     def extra_evidence(self, tier, agg):
         out = {}
